@@ -455,6 +455,55 @@ def check_evaluators(model, counters, _nested=False):
                 cmp(f"evaluate_epsilon_gradient d/d{n}", g.iloc[:, j].values, fd, 1e-5)
         except Exception as e:
             fails.append(f"evaluate_epsilon_gradient: raises {type(e).__name__}: {str(e)[:100]} on a model without ODE system")
+        # the same four evaluators at explicitly passed parameter values that differ from the initial estimates
+        env_s = ireval.base_env(model, scale=0.8)
+        pvals = {p.name: float(env_s[p.name]) for p in model.parameters}
+
+        def direct_s(eta, eps):
+            env = ireval.base_env(model, scale=0.8, etas=eta, eps=eps)
+            out = []
+            for recs in inds:
+                for e in me.run(env, recs):
+                    out.append(e[dv])
+            return np.array(out)
+
+        try:
+            want_pred_s = direct_s({n: 0.0 for n in etas}, zero_eps)
+            want_ipred_s = direct_s(etaval, zero_eps)
+        except (Undefined, ArithmeticError):
+            want_pred_s = None
+        if want_pred_s is not None and any(abs(pvals[p.name] - float(p.init)) > 0 for p in model.parameters):
+            calls = [
+                ("evaluate_population_prediction(parameters=...)", lambda: pm.evaluate_population_prediction(model, parameters=pvals, dataset=sub), want_pred_s, 1e-7),
+                ("evaluate_individual_prediction(parameters=...)", lambda: pm.evaluate_individual_prediction(model, etas=eta_df, parameters=pvals, dataset=sub), want_ipred_s, 1e-7),
+            ]
+            for name, f, want, tol in calls:
+                try:
+                    cmp(name, f(), want, tol)
+                except Exception as e:
+                    fails.append(f"{name}: raises {type(e).__name__}: {str(e)[:100]} on a model without ODE system")
+            try:
+                g = pm.evaluate_eta_gradient(model, etas=eta_df, parameters=pvals, dataset=sub)
+                for j, n in enumerate(etas):
+                    up = dict(etaval)
+                    up[n] += h
+                    dn = dict(etaval)
+                    dn[n] -= h
+                    fd = (direct_s(up, zero_eps) - direct_s(dn, zero_eps)) / (2 * h)
+                    cmp(f"evaluate_eta_gradient(parameters=...) d/d{n}", g.iloc[:, j].values, fd, 1e-5)
+            except Exception as e:
+                fails.append(f"evaluate_eta_gradient(parameters=...): raises {type(e).__name__}: {str(e)[:100]} on a model without ODE system")
+            try:
+                g = pm.evaluate_epsilon_gradient(model, etas=eta_df, parameters=pvals, dataset=sub)
+                for j, n in enumerate(epss):
+                    up = dict(zero_eps)
+                    up[n] = h
+                    dn = dict(zero_eps)
+                    dn[n] = -h
+                    fd = (direct_s(etaval, up) - direct_s(etaval, dn)) / (2 * h)
+                    cmp(f"evaluate_epsilon_gradient(parameters=...) d/d{n}", g.iloc[:, j].values, fd, 1e-5)
+            except Exception as e:
+                fails.append(f"evaluate_epsilon_gradient(parameters=...): raises {type(e).__name__}: {str(e)[:100]} on a model without ODE system")
     # the same evaluations on the same model carrying *different* stored initial individual estimates: explicitly passed etas
     # must still be the evaluation point
     if not fails and not _nested:
